@@ -361,6 +361,17 @@ def _run_chunk(exe, driver, items, env, timeout, extra_args, deaths=None):
                     # nothing was processed at all: the interpreter under test could not load or start the driver, a
                     # fixed, valid Janet program that runs on the unchanged tree
                     raise DriverStartupError("the driver program %s does not run on this tree: %s" % (driver, r.describe()))
+                if r.crashed and not r.timed_out and n > 0:
+                    # killed by a signal between two items or while exiting (typically the allocator aborting on a heap
+                    # that an earlier call corrupted): the driver is a fixed program that ends normally on the unchanged
+                    # tree, so this is a failure of the interpreter under test. It is attributed to the last item that
+                    # completed before the death (the culprit is that one or an earlier one of this chunk).
+                    out[offset + n - 1] = ("CRASH", "driver died after this item, outside any item (heap damaged by this or an "
+                                           "earlier call of the chunk?): " + r.describe())
+                    if deaths is not None:
+                        deaths.add()
+                    offset += n
+                    continue
                 raise HarnessError("batch driver %s died outside an item: %s" % (driver, r.describe()))
             kind = "TIMEOUT" if r.timed_out else "CRASH"
             out[offset + n] = (kind, r.describe())
